@@ -162,39 +162,53 @@ func verifC04_Member() {
 	}
 }
 
-// verifC04_Service: the pool's current list is the tagged instances last reported
-// by discovery, falling back to the static list when none qualifies.
+// verifC04_Service: after every discovery report the pool's current list is the
+// tagged instances of THAT report, falling back to the static list when none
+// qualifies (also after an earlier report did qualify).
 func verifC04_Service() {
 	static := vMakeServers(2, false)
 	sp := &ServerPool{spec: &ServerPoolSpec{Servers: static, ServerTags: []string{"blue"}, LoadBalance: &LoadBalanceSpec{Policy: LoadBalancePolicyRoundRobin}}}
-	ni := verifChoose("instances", 3)
-	instances := map[string]*serviceregistry.ServiceInstanceSpec{}
 	names := []string{"i0", "i1"}
-	tagged := 0
-	for i := 0; i < ni; i++ {
-		inst := &serviceregistry.ServiceInstanceSpec{InstanceID: names[i], Address: "10.1.0.1", Port: uint16(8000 + i), Weight: int(verifInt("iweight", 0, 100))}
-		if verifBool("tagged") {
-			inst.Tags = []string{"x", "blue"}
-			tagged++
+	prevTagged := 0
+	for round := 0; round < verifBound("discoveryRounds"); round++ {
+		ni := verifChoose("instances", 3)
+		instances := map[string]*serviceregistry.ServiceInstanceSpec{}
+		tagged := 0
+		var urls [2]string
+		for i := 0; i < ni; i++ {
+			inst := &serviceregistry.ServiceInstanceSpec{InstanceID: names[i], Address: "10.1.0.1", Port: uint16(8000 + 10*round + i), Weight: int(verifInt("iweight", 0, 100))}
+			if verifBool("tagged") {
+				inst.Tags = []string{"x", "blue"}
+				urls[tagged] = inst.URL()
+				tagged++
+			} else {
+				inst.Tags = []string{"green"}
+			}
+			instances[names[i]] = inst
+		}
+		if round > 0 && verifBool("nilReport") {
+			instances, tagged = nil, 0
+		}
+		sp.useService(instances)
+		lb := sp.LoadBalancer().(*roundRobinLoadBalancer)
+		if tagged == 0 {
+			verifAssert(len(lb.Servers) == 2 && lb.Servers[0] == static[0] && lb.Servers[1] == static[1], "fallback-to-static-list")
+			verifCover("fallback")
+			if prevTagged > 0 {
+				verifCover("fallback-after-instances-vanished")
+			}
 		} else {
-			inst.Tags = []string{"green"}
+			verifAssert(len(lb.Servers) == tagged, "list-is-tagged-instances")
+			for _, s := range lb.Servers {
+				verifAssert(vIndexOf(static, s) < 0, "no-static-server-while-instances-qualify")
+				verifAssert(s.URL == urls[0] || (tagged == 2 && s.URL == urls[1]), "list-is-the-latest-report")
+			}
+			verifCover("discovered")
 		}
-		instances[names[i]] = inst
+		s := lb.ChooseServer(nil)
+		verifAssert(s != nil && vIndexOf(lb.Servers, s) >= 0, "chosen-server-in-list")
+		prevTagged = tagged
 	}
-	sp.useService(instances)
-	lb := sp.LoadBalancer().(*roundRobinLoadBalancer)
-	if tagged == 0 {
-		verifAssert(len(lb.Servers) == 2 && lb.Servers[0] == static[0] && lb.Servers[1] == static[1], "fallback-to-static-list")
-		verifCover("fallback")
-	} else {
-		verifAssert(len(lb.Servers) == tagged, "list-is-tagged-instances")
-		for _, s := range lb.Servers {
-			verifAssert(vIndexOf(static, s) < 0, "no-static-server-while-instances-qualify")
-		}
-		verifCover("discovered")
-	}
-	s := lb.ChooseServer(nil)
-	verifAssert(s != nil && vIndexOf(lb.Servers, s) >= 0, "chosen-server-in-list")
 }
 
 // verifC04_Conc: concurrent selectors through the pool and a concurrent list
